@@ -555,6 +555,10 @@ class Gen:
                 out.append(self.host_rule())
             else:
                 out.append(self.qualified(sel_depth))
+        if in_group and self.chance(0.06):
+            # ... and as the last thing of the block, where the last declaration may lack its semicolon
+            # (`@media (min-width: 1px) { .a {} margin: 5rpx }`)
+            out.append({"t": "declrun", "decls": self.declarations(1), "last": True})
         return out
 
     def stylesheet(self, imports=True):
